@@ -64,6 +64,29 @@ pub fn st_str<E: Elem>(m: &Matrix<E>) -> String {
     format!("st {} {}x{} [{}]", ord_ch(m.order()), m.nrows(), m.ncols(), mem.join(","))
 }
 
+/// caller-defined index whose accessors answer (row, col) on their first call and an
+/// out-of-range / different coordinate on every later call, and count their calls
+pub struct Flip {
+    row: usize,
+    col: usize,
+    pub calls: std::cell::Cell<(usize, usize)>,
+}
+impl Flip {
+    pub fn new(row: usize, col: usize) -> Flip { Flip { row, col, calls: std::cell::Cell::new((0, 0)) } }
+}
+impl matreex::index::AsIndex for &Flip {
+    fn row(&self) -> usize {
+        let (a, b) = self.calls.get();
+        self.calls.set((a + 1, b));
+        if a == 0 { self.row } else { self.row.wrapping_add(1) }
+    }
+    fn col(&self) -> usize {
+        let (a, b) = self.calls.get();
+        self.calls.set((a, b + 1));
+        if b == 0 { self.col } else { 0 }
+    }
+}
+
 /// every shape argument is `impl Into<Shape>`: the spelling (tuple, array, `Shape::new`) rotates
 /// with the extents, so that all three conversions are exercised by every generator
 macro_rules! spelled {
@@ -490,8 +513,48 @@ impl<E: Elem> World<E> {
     /// swap(i, j) with plain ('p') or wrapping ('w') indices
     pub fn swap_elems(&mut self, out: &mut Out, r: usize, i: (char, isize, isize), j: (char, isize, isize)) {
         use matreex::WrappingIndex;
-        let op = format!("swap {r} {} {} {} {} {} {}", i.0, i.1, i.2, j.0, j.1, j.2);
+        // kind 's': a caller-defined index type whose accessors give the stated coordinates on their
+        // first call and different ones afterwards; the operation line (and the model) see a plain index
+        let line_kind = |k: char| if k == 's' { 'p' } else { k };
+        let op = format!("swap {r} {} {} {} {} {} {}", line_kind(i.0), i.1, i.2, line_kind(j.0), j.1, j.2);
         out.announce(&op);
+        if i.0 == 's' || j.0 == 's' {
+            let fl_i = Flip::new(i.1 as usize, i.2 as usize);
+            let fl_j = Flip::new(j.1 as usize, j.2 as usize);
+            let m = self.regs[r].as_mut().unwrap();
+            let st_before = st_str(m);
+            let res = catch(|| m.swap(&fl_i, &fl_j).map(|_| ()));
+            // the first index is read once; the second once, or not at all when the first is rejected
+            let (ci, cj) = (fl_i.calls.get(), fl_j.calls.get());
+            if ci != (1, 1) || !(cj == (1, 1) || cj == (0, 0)) {
+                out.oracle_fail(&format!("{op}: through caller-defined accessors: row()/col() were called {:?} and {:?} times instead of once each", ci, cj));
+            }
+            let (order, mut rf) = self.refs[r].take().unwrap();
+            let inb = |a: isize, b: isize, rf: &Ref| (a as usize) < rf.nrows && (b as usize) < rf.ncols;
+            let valid = inb(i.1, i.2, &rf) && inb(j.1, j.2, &rf);
+            if valid {
+                let t = rf.rows[i.1 as usize][i.2 as usize].clone();
+                rf.rows[i.1 as usize][i.2 as usize] = rf.rows[j.1 as usize][j.2 as usize].clone();
+                rf.rows[j.1 as usize][j.2 as usize] = t;
+            }
+            self.refs[r] = Some((order, rf));
+            let m = self.regs[r].as_ref().unwrap();
+            let obs = match res {
+                None => "panic".to_string(),
+                Some(Ok(())) => format!("ok | {}", st_str(m)),
+                Some(Err(e)) => format!("err {} | {}", err_name(e), st_str(m)),
+            };
+            if obs.starts_with("ok") != valid || (!valid && !obs.starts_with("err IndexOutOfBounds")) {
+                out.oracle_fail(&format!("{op}: through caller-defined accessors: expected {}, implementation gave `{}`", if valid { "Ok" } else { "Err(IndexOutOfBounds)" }, obs));
+            }
+            if !obs.starts_with("ok") && st_str(m) != st_before {
+                out.oracle_fail(&format!("{op}: the failed call changed the matrix"));
+            }
+            out.count("swap-elem:caller-defined-index");
+            out.observe(&obs);
+            self.check_reg(out, r, &op);
+            return;
+        }
         let before = snapshot();
         let st_before = self.reg_str(r);
         let m = self.regs[r].as_mut().unwrap();
